@@ -53,6 +53,24 @@ Proof.
     apply in_concat. exists ds. split; [|exact Hd]. apply in_map_iff. exists (u, ds). auto.
 Qed.
 
+(** ---------------------------------------------------------------- a simple molecule *)
+Lemma same_ends_refl b : same_ends b b.
+Proof. left. auto. Qed.
+Lemma same_ends_sym b b' : same_ends b b' -> same_ends b' b.
+Proof. unfold same_ends. intros [[A B]|[A B]]; [left|right]; auto. Qed.
+Lemma bonds_simple C : wf_cut C -> forall b b', In b (c_bonds C) -> In b' (c_bonds C) -> same_ends b b' -> b = b'.
+Proof.
+  intros W. pose proof (wc_simple C W) as H. induction H as [|x r Hx Hr IH]; intros b b' Hb Hb' S; [contradiction|].
+  rewrite Forall_forall in Hx. destruct Hb as [<-|Hb], Hb' as [<-|Hb']; auto.
+  - exfalso. exact (Hx b' Hb' S).
+  - exfalso. exact (Hx b Hb (same_ends_sym _ _ S)).
+Qed.
+Lemma bonds_nodup C : wf_cut C -> NoDup (c_bonds C).
+Proof.
+  intros W. pose proof (wc_simple C W) as H. induction H as [|x r Hx Hr IH]; constructor; [|exact IH].
+  rewrite Forall_forall in Hx. intros Hin. exact (Hx x Hin (same_ends_refl x)).
+Qed.
+
 (** ---------------------------------------------------------------- descriptor texts *)
 Lemma dtext_inj s b s' b' : dtext s b = dtext s' b' -> kind_char s b = kind_char s' b' /\ cb_lab b = cb_lab b'.
 Proof.
